@@ -507,7 +507,11 @@ def check(ctx, replay=None):
                 small = dict(opt=s["opt"], simplices=s["simplices"], configs=s["configs"])
                 what, expd, obsd = vv[0][2], vv[0][3], vv[0][4]
         for _ in lst:
-            res.violation(kind, what, small, expected=expd, observed=obsd)
+            if kind.startswith("model:"):
+                # the specification still holds on every input explored: the code no longer matches its algorithm model
+                res.violation(kind, what, small, expected=expd, observed=obsd, no_input=True)
+            else:
+                res.violation(kind, what, small, expected=expd, observed=obsd)
     res.rule = ("one evaluation = one run of compute_persistent_cohomology (complex, option set, field or prime range, persistence_dim_max, "
                 "min_interval_length) whose pair list, diagram, products and every read-out agreed with the algorithm model, the proved oracle and "
                 "the read-out definitions; distinct = distinct (insertion list, option set, configuration); every case has at least one simplex")
